@@ -188,7 +188,15 @@ func (store *BaseStore[E]) Create(ctx MutateContext, entity E) error {
 		return errors.Errorf("an entity of type %v already exists with id %v", store.GetSingularEntityType(), entity.GetId())
 	}
 
+	// a child store only looks at its own data above; the parent entity may already exist
+	parentExists := store.parent != nil && store.parent.IsEntityPresent(ctx.Tx(), entity.GetId())
+
 	bucket := store.getOrCreateEntityBucket(ctx.Tx(), []byte(entity.GetId()))
+	indexingContext := store.newIndexingContext(true, ctx, entity.GetId(), bucket)
+	if parentExists {
+		// remember the parent's indexed values, so that its index entries are replaced, not added to
+		indexingContext.Parent.ProcessBeforeUpdate()
+	}
 	persistCtx := &PersistContext{
 		MutateContext: ctx,
 		Id:            entity.GetId(),
@@ -200,7 +208,6 @@ func (store *BaseStore[E]) Create(ctx MutateContext, entity E) error {
 	if bucket.HasError() {
 		return bucket.GetError()
 	}
-	indexingContext := store.newIndexingContext(true, ctx, entity.GetId(), bucket)
 	indexingContext.ProcessAfterUpdate()
 
 	changeFlow := &EntityChangeState[E]{
